@@ -48,7 +48,7 @@ Fixpoint dec_fields_with (f : ty -> json -> res val) (ns : list string) (kv : li
   | Field _ n _ ft :: fr =>
       rbind (match ft with
              | TSkip => Ok VUnit
-             | _ => match lookup_f ns n kv with None => Ok (zero ft) | Some x => f ft x end
+             | _ => dec_occs (f ft) ft (entries_f ns n kv)
              end)
             (fun v => rbind (dec_fields_with f ns kv fr) (fun vs => Ok (v :: vs)))
   end.
@@ -208,10 +208,7 @@ Fixpoint dec_c (e : codec) (t : ty) (j : json) {struct t} : res val :=
                 | Field _ n _ ft :: fr' =>
                     rbind (match ft with
                            | TSkip => Ok VUnit
-                           | _ => match lookup_f (names fs) n kv with
-                                  | None => Ok (zero ft)
-                                  | Some x => dec_c e ft x
-                                  end
+                           | _ => dec_occs (dec_c e ft) ft (entries_f (names fs) n kv)
                            end)
                           (fun v => rbind (go fr') (fun vs => Ok (v :: vs)))
                 end) fs)
@@ -227,16 +224,21 @@ Lemma dec_c_struct_gen : forall e ns kv fs,
      | Field _ n _ ft :: fr' =>
          rbind (match ft with
                 | TSkip => Ok VUnit
-                | _ => match lookup_f ns n kv with
-                       | None => Ok (zero ft)
-                       | Some x => dec_c e ft x
-                       end
+                | _ => dec_occs (dec_c e ft) ft (entries_f ns n kv)
                 end)
                (fun v => rbind (go fr') (fun vs => Ok (v :: vs)))
      end) fs = dec_fields_with (dec_c e) ns kv fs.
 Proof.
   intros e ns kv fs. induction fs as [|[g n om ft] fr IH]; [reflexivity|].
   cbn [dec_fields_with]. rewrite <- IH. reflexivity.
+Qed.
+
+Lemma dec_occs_ext : forall (d1 d2 : json -> res val) t js, (forall j, d1 j = d2 j) -> dec_occs d1 t js = dec_occs d2 t js.
+Proof.
+  intros d1 d2 t js H. unfold dec_occs. destruct js as [|j [|j2 r]]; [reflexivity|apply H|].
+  destruct (seq_type t); [|reflexivity].
+  generalize (Ok (zero t)) as acc. generalize (j :: j2 :: r) as l.
+  induction l as [|x l IH]; intros acc; [reflexivity|]. cbn [fold_left]. rewrite H. apply IH.
 Qed.
 
 Lemma map_res_ext : forall {A B} (f g : A -> res B) l, (forall a, f a = g a) -> map_res f l = map_res g l.
@@ -258,8 +260,8 @@ Proof.
   - (* TStruct *) intros fs IH e j He. destruct j; try reflexivity.
     rewrite dec_struct. cbn [dec_c]. rewrite dec_c_struct_gen, IH by exact He. reflexivity.
   - (* cons *) intros g n o t fs IHt IHfs e ns kv He. cbn [dec_fields_with dec_fields].
-    rewrite IHfs by exact He. unfold dec_field. destruct t; try reflexivity;
-      (destruct (lookup_f ns n kv); [rewrite IHt by exact He|]; reflexivity).
+    rewrite IHfs by exact He. unfold dec_field.
+    rewrite (dec_occs_ext (dec_c e t) (dec t)) by (intros j; apply IHt; exact He). reflexivity.
 Qed.
 
 (* ---- the containers, every call spelled out ---- *)
